@@ -49,7 +49,9 @@ func (r *pipeRead) WaitName() string { return "conn-read:" + r.p.Name }
 //go:norace
 func (w *pipeWrite) Ready() bool {
 	p := w.p
-	return !p.stalled || p.srvClosed || p.wrErr != nil
+	// a write to a peer that has gone away fails (EPIPE / RST) even if the peer
+	// had stopped reading before
+	return !p.stalled || p.srvClosed || p.wrErr != nil || p.cliClosed
 }
 func (w *pipeWrite) WaitName() string { return "conn-write:" + w.p.Name }
 
